@@ -327,7 +327,7 @@ def generate(prop, rng, tier):
         c = gen_case(rng)
         yield c["stratum"], c
     if tier == "thorough":
-        # small scope: all pairs of trees over the shapes with <= 3 non-root nodes and names b / bc
+        # small scope: all pairs of trees over the shapes with <= 4 non-root nodes and names b / bc
         small = _small_trees(["b", "bc"])
         for t1 in small:
             for t2 in small:
@@ -336,7 +336,7 @@ def generate(prop, rng, tier):
 
 
 def _small_trees(names):
-    """all trees with root r, depth <= 3, at most 3 non-root nodes, sibling names distinct (as ordered by names)"""
+    """all trees with root r, depth <= 4, at most 4 non-root nodes, sibling names distinct (as ordered by names)"""
     def forests(budget, depth):
         # list of (forest, used)
         if budget == 0 or depth == 0:
@@ -359,7 +359,7 @@ def _small_trees(names):
         return out
 
     seen = {}
-    for f, u in forests(3, 2):
+    for f, u in forests(4, 3):
         t = ["r", {}, f]
         seen[json.dumps(t)] = t
     return list(seen.values())
@@ -463,8 +463,12 @@ def trusted_base(prop):
 
 
 def partial_clauses(prop):
-    return ["C15 theorems are stated for sep = '/' (K4-C15: other separators raise TreeError) and for names that are non-empty, "
-            "do not contain the separator and do not already end in ' (-)', ' (+)' or ' (~)'"]
+    return ["all C15 theorems are stated for sep = '/' (other separators: known finding K4-C15, Example C15_refuted_sep)",
+            "all C15 theorems carry the guard lookalike_free: no name already ends in ' (-)', ' (+)' or ' (~)' "
+            "(Example C15_lookalike_guard_needed shows the predicate is false without it); the correspondence check "
+            "still compares model and implementation on such names but does not evaluate the predicate there",
+            "pandas' row order of the outer join is not modelled: model and implementation are compared as multisets of "
+            "(path_name, attributes); sibling order of the returned tree is outside the property"]
 
 
 def assumptions(prop):
